@@ -65,6 +65,7 @@ class FibRun:
         self.handled = []       # {'h','i'}
         self.wire = []
         self.rets = []
+        self.injected = []      # exceptions the harness validators raised on purpose
         self.good_digests = []  # parameter digests of the correctly built Interests delivered so far
         self.replyfn = {}       # int id -> reply callable (v2)
         self.intinfo = {}       # int id -> dict(it, name, wire)
@@ -125,6 +126,8 @@ class FibRun:
     def post(self):
         for c in self.loop.errors:
             ex = c.get('exception')
+            if any(ex is x for x in self.injected):
+                continue
             self.bg.append('loop:' + (type(ex).__name__ if ex is not None else str(c.get('message'))[:40]))
         self.loop.errors.clear()
         self.scan_out()
@@ -251,7 +254,14 @@ class FibRun:
             pend = [(j, f) for (j, f) in self.vq if j == i and not f.done()]
             if pend:
                 f = pend[0][1]
-                if self.front == 'v2':
+                if v == 'RAISE':
+                    # the application's validator fails (e.g. an unknown key): nothing was accepted, the Interest must
+                    # not reach the handler; the exception itself surfacing in the loop's handler is the validator's
+                    # own and is not counted against the library
+                    ex = KeyError('validator failed: unknown key')
+                    self.injected.append(ex)
+                    f.set_exception(ex)
+                elif self.front == 'v2':
                     f.set_result({'PASS': ndn_types.ValidResult.PASS, 'FAIL': ndn_types.ValidResult.FAIL,
                                   'TIMEOUT': ndn_types.ValidResult.TIMEOUT, 'SILENCE': ndn_types.ValidResult.SILENCE,
                                   'BYPASS': ndn_types.ValidResult.ALLOW_BYPASS}[v])
